@@ -6,7 +6,9 @@
    UPDATE, DELETE, successful or failing), page flushes (`EvFlush`: any placement - never, after any
    subset of statements, always; clean shutdown = flush then crash) and crash-restarts (`EvCrash`:
    InitStorage = read the log, replay it on the data file with the page-LSN skip test, flush) on a
-   freshly created database, any number of crash cycles with statements in between.
+   freshly created database, any number of crash cycles with statements in between. (`hist_ok`
+   also admits `EvCrashInLog` - a crash inside a statement's log append, property C03 - so the
+   theorems below hold after those as well; `EvTornFlush` (C04) is not admitted.)
 
    `seq a b`: a and b have the same pages up to dirty flags (same cells, LSNs, sibling links,
    separators), the same catalog root and the same allocation frontier. The row-id and LSN counters
@@ -26,10 +28,12 @@
         catalog rows carry the same file_offset. (Found by this proof: with DML on sys_pages a user
         could create two rows with one offset, and recovery then rewrote the wrong row; the engine
         now refuses INSERT / UPDATE / DELETE on the catalog tables - /repo c7d1b36, modelled by
-        `is_sys_table` - so only CREATE TABLE and root moves write offsets, always fresh ones.) *)
+        `is_sys_table` - so only CREATE TABLE and root moves write offsets, always fresh ones.)
+        (H2) is kept as an explicit hypothesis here; it is not derived from a catalog invariant
+        in this file. *)
 From Coq Require Import List NArith ZArith String.
 From Mkdb Require Import Model.Engine Proofs.TreeProofs Proofs.StoreInv Proofs.CrashBase Proofs.CrashPages
-  Proofs.CrashRedo Proofs.CrashLog Proofs.CrashMain Proofs.CrashPrefix Proofs.CrashHist.
+  Proofs.CrashRedo Proofs.CrashLog Proofs.CrashMain Proofs.CrashPrefix Proofs.CrashHist Proofs.CrashCongr.
 Import ListNotations.
 Local Open Scope N_scope.
 
@@ -109,6 +113,35 @@ Proof.
   destruct (G evs init_sys os H R) as (os' & A & B). exists y1, os'. auto.
 Qed.
 Print Assumptions C02_crash_cycles.
+
+(* later statements behave as on the uncrashed cache. (1) Statements never look at dirty flags:
+   two stores equal up to dirty flags with the same counters run any sequence of statements with
+   the same outcomes and the same tables. (2) Hence, whenever recovery restores the counters too -
+   in particular after a clean shutdown, where restart returns the flushed system itself - the
+   recovered database is indistinguishable from the uncrashed one by any later statements. When a
+   failed statement had consumed row ids / LSNs after the last flush the recovered counters are
+   smaller (never too small: C02_ids_never_reused), and later INSERTs get smaller ids than they
+   would have: that case is covered by C02_crash_cycles, not by an id-renaming theorem (see
+   C02_full_statement). *)
+Theorem C02_later_statements_partial : forall evs y os y' sts,
+  hist_ok init_sys evs -> run_events init_sys evs = (SOk y, os) -> recover y = Ok y' ->
+  lastKey (mem y') = lastKey (mem y) -> nextLSN (mem y') = nextLSN (mem y) ->
+  snd (run_stmts (mem y') sts) = snd (run_stmts (mem y) sts) /\
+  abs (fst (run_stmts (mem y') sts)) = abs (fst (run_stmts (mem y) sts)) /\
+  seq (fst (run_stmts (mem y') sts)) (fst (run_stmts (mem y) sts)).
+Proof.
+  intros evs y os y' sts H R Hrec Hk Hl.
+  destruct (recovery_restores y (ex_intro _ evs (ex_intro _ os (conj H R)))) as (y2 & Hrec2 & S & _).
+  rewrite Hrec in Hrec2. inversion Hrec2; subst y2.
+  destruct (run_stmts_congr sts (mem y') (mem y) (mkSeqc _ _ S Hk Hl)) as [A B].
+  split; [exact B|]. split; [apply seqc_abs; exact A | apply A].
+Qed.
+Print Assumptions C02_later_statements_partial.
+
+Theorem C02_clean_shutdown : forall evs y os,
+  hist_ok init_sys evs -> run_events init_sys evs = (SOk y, os) -> recover (do_flush y) = Ok (do_flush y).
+Proof. intros evs y os H R. apply clean_shutdown. exists evs, os. auto. Qed.
+Print Assumptions C02_clean_shutdown.
 
 (* ... and recovery never fails or panics on such a history *)
 Theorem C02_recovery_total : forall evs y os,
